@@ -19,6 +19,7 @@ import (
 const repoModule = "github.com/trustbloc/sidetree-go"
 
 type Program struct {
+	Bindings  map[string]map[string]*localBinding // function key -> contract name -> recorded local variable
 	RepoDir   string
 	VerifDir  string
 	Fset      *token.FileSet
@@ -125,6 +126,7 @@ func loadProgram(repoDir, verifDir string) (*Program, error) {
 		}
 		p.fnByKey[keyOfFunction(fn)] = fn
 	}
+	p.Bindings = loadBindings(verifDir)
 	if err := p.loadContracts(); err != nil {
 		return nil, err
 	}
